@@ -2,6 +2,7 @@ package props
 
 import (
 	"fmt"
+	"github.com/onheap/eval"
 	"testing"
 
 	"pgregory.net/rapid"
@@ -16,6 +17,34 @@ type C03Case struct {
 	Tree  *m.Node     `json:"tree"`
 	Costs []CostEntry `json:"costs,omitempty"`
 	Src   string      `json:"src"`
+}
+
+// atMostOncePerNode: an evaluation visits every node of the program at most once, so a variable is
+// fetched at most as often as it occurs in the dumped tree and a registered operator is called at
+// most as often as calls of it occur there - whatever the values are. (A retry, a fallback lookup or
+// a second application shows here without any model of values.)
+func atMostOncePerNode(dump *m.Node, trace []m.Ev) string {
+	occ := map[string]int{}
+	dump.Walk(func(x *m.Node) {
+		switch x.Kind {
+		case m.KVar:
+			occ["get:"+x.Name]++
+		case m.KOp:
+			occ["call:"+x.Name]++
+		}
+	})
+	seen := map[string]int{}
+	for _, ev := range trace {
+		k := "call:" + ev.Op
+		if ev.Get != "" {
+			k = "get:" + ev.Get
+		}
+		seen[k]++
+		if seen[k] > occ[k] {
+			return fmt.Sprintf("%s happens %d times in one evaluation, the program contains it %d times", k, seen[k], occ[k])
+		}
+	}
+	return ""
 }
 
 func genC03(t *rapid.T) C03Case {
@@ -63,6 +92,34 @@ func checkC03(c C03Case, r *Rec) *Violation {
 		if run.Out.Panic != nil {
 			return Violf("C03: Eval panics\n%s\n%v", run.describe(src, u), run.Out)
 		}
+		if why := atMostOncePerNode(run.DTree, run.Trace); why != "" {
+			return Violf("C03: %s\n%s\nengine=%v", why, run.describe(src, u), m.TraceStrings(run.Trace))
+		}
+		// the same with un-normalised integers from the fetcher (no model of what operators make of
+		// them: only the at-most-once rule, and Eval and TryEval performing the same effects)
+		if hash64(src)%5 == 0 {
+			var traces [2][]m.Ev
+			for k, try := range []bool{false, true} {
+				run.Log.Reset()
+				f := NewFetcher(u, run.Cfg, run.Log)
+				f.Raw = true
+				o := Safe(func() (eval.Value, error) {
+					if try {
+						return run.Expr.TryEval(f.Ctx())
+					}
+					return run.Expr.Eval(f.Ctx())
+				})
+				if o.Panic != nil {
+					return Violf("C03: evaluation panics with un-normalised integer bindings\n%s\n%v", run.describe(src, u), o)
+				}
+				traces[k] = append([]m.Ev(nil), run.Log.Ev...)
+				if why := atMostOncePerNode(run.DTree, traces[k]); why != "" {
+					return Violf("C03: with un-normalised integer bindings (Go int / int32 from the fetcher): %s\n%s\nengine=%v", why, run.describe(src, u), m.TraceStrings(traces[k]))
+				}
+			}
+			r.Class("raw-integer-bindings")
+			run.Log.Reset()
+		}
 		if !MatchTrace(run.Trace, run.RefTrace) {
 			return Violf("C03: the fetches / operator calls performed differ from left-to-right short-circuit evaluation of the dumped program\n%s\nengine   =%v\nreference=%v",
 				run.describe(src, u), m.TraceStrings(run.Trace), m.TraceStrings(run.RefTrace))
@@ -103,7 +160,7 @@ func checkC03(c C03Case, r *Rec) *Violation {
 
 var propC03 = Prop[C03Case]{
 	ID:    "C03",
-	Rule:  "typed random expression with effectful operands everywhere (variables incl. failing/unbound, logging custom operators incl. failing and stateful ones) x 16 optimization subsets; the engine's ordered log of Get calls and custom-operator calls (name, arguments, result/error) must equal the trace of R (R_fast when FastEvaluation is on; its second-leaf fetch after a deciding first leaf is optional) run on the tree read back from that configuration's Dump; Eval, Eval again, and TryEval with every variable available. One case in six is a decision chain: 2..9 nested and/or levels continuing through first / middle / last operands and directly nested ifs, decided (or not) by one innermost boolean. Non-trivial = in some configuration evaluating everything (all operands, both branches) would perform more fetches/calls than were performed, i.e. a part with effects really was skipped; distinct by source + binding",
+	Rule:  "typed random expression with effectful operands everywhere (variables incl. failing/unbound, logging custom operators incl. failing and stateful ones) x 16 optimization subsets; the engine's ordered log of Get calls and custom-operator calls (name, arguments, result/error) must equal the trace of R (R_fast when FastEvaluation is on; its second-leaf fetch after a deciding first leaf is optional) run on the tree read back from that configuration's Dump; Eval, Eval again, and TryEval with every variable available. Model-free: no variable is fetched and no registered operator called more often than it occurs in the dumped program (also with Go int / int32 values from the fetcher, one case in five). One case in six is a decision chain: 2..9 nested and/or levels continuing through first / middle / last operands and directly nested ifs, decided (or not) by one innermost boolean. Non-trivial = in some configuration evaluating everything (all operands, both branches) would perform more fetches/calls than were performed, i.e. a part with effects really was skipped; distinct by source + binding",
 	Gen:   genC03,
 	Check: checkC03,
 }
